@@ -4,6 +4,7 @@ import (
 	"encoding/json"
 	"fmt"
 	"strings"
+	"sync"
 	"testing"
 
 	kmip "github.com/ovh/kmip-go"
@@ -11,6 +12,7 @@ import (
 	"pgregory.net/rapid"
 
 	"verif/harness/evid"
+	"verif/harness/vendortypes"
 )
 
 // Registrations made at run time through the public API (vendor tags, vendor values added to a built-in
@@ -20,9 +22,11 @@ import (
 // The registry is process-wide and cannot be reset, so every execution (also while shrinking) uses fresh
 // numbers and names: value = 0x80000000 | epoch<<8 | k, name = "Verif<epoch>x<k>".
 
+// (the second vendor enumeration and the vendor mask are Go types of another package that happen to be called like
+// standard tags - State, StorageStatusMask: a registration is by type and tag, the Go type's name means nothing)
 type vendorEnumA uint32
-type vendorEnumB uint32
-type vendorMaskA int32
+type vendorEnumB = vendortypes.State
+type vendorMaskA = vendortypes.StorageStatusMask
 
 type c17Step struct {
 	Op    string `json:"op"`    // by-name | by-name-unknown | by-value | register | register-tag | register-mask | roundtrip
@@ -37,6 +41,7 @@ type c17Entry struct {
 }
 
 var c17Epoch uint32
+var c17MaskOnce sync.Once
 
 func c17RuntimeRun(steps []c17Step) (string, error) {
 	c17Epoch++
@@ -45,7 +50,9 @@ func c17RuntimeRun(steps []c17Step) (string, error) {
 	// sixteen tag numbers of its own for every execution, outside the two KMIP ranges (0x42xxxx, 0x54xxxx), so that neither
 	// an earlier execution nor the built-in registry ever shares a tag or a name with this one
 	base := 0x100000 + int(ep%0x30000)*16
-	vtagA, vtagB := base, base+1
+	// (the Go types whose values are also encoded as such keep one tag for the whole process, as a type registered by a
+	// vendor package does: vendorEnumB under 0x0FF001, the mask under 0x0FF002, registered once)
+	vtagA, vtagB := base, 0x0FF001
 	scopes := []int{0x420057 /* ObjectType */, 0x42005C /* Operation */, 0x420028 /* CryptographicAlgorithm */, vtagA, vtagB}
 	var entries []c17Entry
 	tagNames := map[int]string{}
@@ -120,6 +127,37 @@ func c17RuntimeRun(steps []c17Step) (string, error) {
 		if txt := string(ttlv.MarshalText(gv)); !strings.HasSuffix(txt, ": "+e.name) {
 			return "runtime-enum-text", fmt.Errorf("step %d: text form of 0x%06X=%s is %q", i, e.tag, e.name, txt)
 		}
+		// the same value as a Go value of the registered type (the vendor enumeration that keeps its tag; the other one gets a
+		// new tag with every execution, which no real type does, and the encoder rightly resolves a type's scope once)
+		typed := func(encName string, m func(any) []byte, u func([]byte, any) error) (string, error) {
+			var out []byte
+			var got uint32
+			err := safely(func() error {
+				switch e.tag {
+				case vtagB:
+					var back vendorEnumB
+					out = m(vendorEnumB(e.value))
+					err := u(out, &back)
+					got = uint32(back)
+					return err
+				}
+				got = e.value
+				return nil
+			})
+			if err != nil || got != e.value {
+				return "runtime-typed-enum-roundtrip-" + encName, fmt.Errorf("step %d: 0x%06X=%s as a value of its Go type is written as %s and reads back as 0x%08X, %v", i, e.tag, e.name, out, got, err)
+			}
+			if out != nil && !strings.Contains(string(out), `"`+e.name+`"`) {
+				return "runtime-typed-enum-not-written-by-name-" + encName, fmt.Errorf("step %d: 0x%06X=%s as a value of its Go type is written as %s", i, e.tag, e.name, out)
+			}
+			return "", nil
+		}
+		if sig, err := typed("xml", ttlv.MarshalXML, ttlv.UnmarshalXML); err != nil {
+			return sig, err
+		}
+		if sig, err := typed("json", ttlv.MarshalJSON, ttlv.UnmarshalJSON); err != nil {
+			return sig, err
+		}
 		return "", nil
 	}
 	for i, s := range steps {
@@ -152,10 +190,14 @@ func c17RuntimeRun(steps []c17Step) (string, error) {
 			if maskTag != 0 {
 				continue
 			}
-			maskTag = base + 4
+			maskTag = 0x0FF002
 			// four bits, the second one reserved (no name), as the registration API allows
-			maskNames = []string{fmt.Sprintf("VerifFlag%dA", ep), "", fmt.Sprintf("VerifFlag%dC", ep), fmt.Sprintf("VerifFlag%dD", ep)}
-			if err := safely(func() error { ttlv.RegisterBitmask[vendorMaskA](maskTag, maskNames...); return nil }); err != nil {
+			maskNames = []string{"VerifFlagA", "", "VerifFlagC", "VerifFlagD"}
+			var err error
+			c17MaskOnce.Do(func() {
+				err = safely(func() error { ttlv.RegisterBitmask[vendorMaskA](maskTag, maskNames...); return nil })
+			})
+			if err != nil {
 				return "runtime-register-panics", fmt.Errorf("step %d: %w", i, err)
 			}
 		case "by-name-unknown":
@@ -217,6 +259,22 @@ func c17RuntimeRun(steps []c17Step) (string, error) {
 			}
 			if got := string(ttlv.AppendBitmaskString(nil, maskTag, vendorMaskA(13), "|")); got != maskNames[0]+"|"+maskNames[2]+"|"+maskNames[3] {
 				return "runtime-mask-name", fmt.Errorf("step %d: mask value 13 of 0x%06X is written %q", i, maskTag, got)
+			}
+			for encName, codec := range map[string]struct {
+				m func(any) []byte
+				u func([]byte, any) error
+			}{"xml": {ttlv.MarshalXML, ttlv.UnmarshalXML}, "json": {ttlv.MarshalJSON, ttlv.UnmarshalJSON}} {
+				var out []byte
+				var back vendorMaskA
+				err := safely(func() error { out = codec.m(vendorMaskA(13)); return codec.u(out, &back) })
+				if err != nil || back != 13 {
+					return "runtime-typed-mask-roundtrip-" + encName, fmt.Errorf("step %d: mask value 13 of 0x%06X as a value of its Go type is written as %s and reads back as %d, %v", i, maskTag, out, back, err)
+				}
+				for _, b := range []int{0, 2, 3} {
+					if !strings.Contains(string(out), maskNames[b]) {
+						return "runtime-typed-mask-not-written-by-name-" + encName, fmt.Errorf("step %d: mask value 13 of 0x%06X as a value of its Go type is written as %s", i, maskTag, out)
+					}
+				}
 			}
 		}
 	}
